@@ -64,7 +64,7 @@ Next ==
     \/ \E x \in Dom : \/ Apply([op |-> "add", x |-> x]) \/ Apply([op |-> "discard", x |-> x])
                       \/ Apply([op |-> "remove", x |-> x]) \/ Apply([op |-> "contains", x |-> x])
     \/ Apply([op |-> "pop"]) \/ Apply([op |-> "clear"]) \/ Apply([op |-> "len"]) \/ Apply([op |-> "iter"])
-    \/ \E k \in {1, 2} : Apply([op |-> "probe", kind |-> k]) \/ Apply([op |-> "probe_remove", kind |-> k])
+    \/ \E k \in {1, 2, 3} : Apply([op |-> "probe", kind |-> k]) \/ Apply([op |-> "probe_remove", kind |-> k])
     \/ \E s \in Small : \/ Apply([op |-> "ior", init |-> s]) \/ Apply([op |-> "isub", init |-> s])
                         \/ Apply([op |-> "iand", init |-> s]) \/ Apply([op |-> "eq", init |-> s])
 Spec == Init /\ [][Next]_<<vars, last>>
